@@ -46,3 +46,19 @@ claim("C08", "differential testing against a reference validator over typed gene
       "For generated (schema, document) pairs the emptiness of validator.Validate's error list must equal the verdict of an independent implementation of the validation section of the specification (plus the introspection depth rule). Documents valid by construction must be accepted, documents with an injected fault rejected; the generator and every fault operator are cross-checked against the reference on every case.",
       "Trusted: harness/ref/validate.go, calibrated against the 398 applicable graphql-js cases imported by the repository (TestSelfValidator). Two deviations that cannot be repaired without API changes are recorded as known findings with exact relaxations.",
       "6/C08")
+claim("C02", "generated-input search with a crash/termination oracle over typed and type-blind generators, plus size-parametrised adversarial families with wall-time bounds",
+      "Valid, faulty and random schemas crossed with valid, faulty, misspelt and type-blind documents go through LoadSchema, ParseSchemas+ValidateSchemaDocument, Validate and LoadQuery; every call must return normally with a well-formed result and the two load paths must agree. Twenty families of pathological shape (fragment fan-out in four positions, cycles through fields, wide/deep same-name selections, wide unions, large literals) are validated at 256 B to 4 KB under absolute and growth bounds.",
+      "Absence of crashes is established only on what was explored; time bounds are wall-clock with a 10x margin over the slowest legitimate family member on the unchanged tree (about 1 s at 4 KB).",
+      "6/C02")
+claim("C09", "model-based check of annotations: independent traversal that resolves every node by name through the loaded schema",
+      "For generated valid pairs every link the walker leaves on the document is recomputed independently and compared by pointer identity with the schema's definitions: fields, parents, spreads, inline fragments, fragment definitions, directives and locations, variable definitions, expected type and definition of every typed value (lists, input objects, list-coerced singles), and the definition of every variable use.",
+      "Only documents that pass validation are in scope (as the property states); resolution uses the loaded schema's own maps, whose closure is C07's subject.",
+      "6/C09")
+claim("C10", "metamorphic repetition: fresh runs in-process, re-validation of the same tree, and freshly started child processes over error-biased and tie-biased generated pairs",
+      "For generated invalid, misspelt (equal-distance candidates) and type-blind pairs and for schemas with two independent faults the complete error list must be identical over 8/16 fresh runs, on re-validating the same parsed document, and in 3 child processes.",
+      "Go randomises map iteration per range statement, so in-process repetition samples iteration orders; three child processes sample hash seeds. One recorded deviation (re-validation with fragment cycles) is modelled narrowly.",
+      "6/C10")
+claim("C18", "algebraic law over configurations: exhaustive singletons + random subsets/orders of the exported rules on generated pairs",
+      "For each generated pair all 27 singleton rule sets are evaluated and every other configuration (default, explicit full list, a random subset in random order, the four suggestion-free variants) must equal the multiset union of the singleton results with correct tags.",
+      "Every Validate call receives a freshly parsed document, so the law is about rules, not about leftover annotations (that is C10's re-validation clause).",
+      "6/C18")
